@@ -573,6 +573,35 @@ def gen_obj(rng, opts, depth=0, budget=None, cls=None, nattrs=None):
     return {"k": "obj", "cls": cls, "attrs": attrs}
 
 
+def sanitize(spec):
+    """Keep generated graphs inside the property's quantifier: inside all-numeric sequences/sets
+    ints stay within int64, and within 2^53 when a float is present (the serializer stores such
+    containers as one homogeneous array)."""
+    for _, s in walk(spec):
+        if s.get("k") in ("list", "tuple", "set") and s["items"] and all(
+                x["k"] in ("int", "float", "bool") or (x["k"] == "npscalar" and not x[
+                    "dtype"].startswith("complex")) for x in s["items"]):
+            has_float = any(x["k"] == "float" or (x["k"] == "npscalar" and x["dtype"].startswith(
+                "float")) for x in s["items"])
+            for x in s["items"]:
+                if x["k"] == "npscalar" and x["dtype"] == "uint64" and int(x["v"]) > 2 ** 63 - 1:
+                    x["v"] = 5
+                if has_float and x["k"] in ("int", "npscalar") and not isinstance(x["v"], (str, bool)) \
+                        and abs(int(x["v"])) > 2 ** 53:
+                    x["v"] = 7 if x["k"] == "int" else 1
+            if s["k"] == "set":
+                # members that became numerically equal would collapse: de-duplicate
+                seen, keep = [], []
+                for x in s["items"]:
+                    v = build(x)
+                    if any(_py_eq(v, w) for w in seen):
+                        continue
+                    seen.append(v)
+                    keep.append(x)
+                s["items"] = keep
+    return spec
+
+
 def gen_graph(rng, tier="quick", allow=None, root_cls=None):
     opts = default_opts(rng, tier, allow)
     opts["maxdepth"] = {"tiny": 2, "wide": 2, "deep": 4, "big": 2}[opts["regime"]]
@@ -582,7 +611,7 @@ def gen_graph(rng, tier="quick", allow=None, root_cls=None):
         used = {n for n, _ in g["attrs"]}
         g["attrs"].insert(rng.randrange(len(g["attrs"]) + 1),
                           [gen_name(rng, used), gen_nd(rng, opts, big=True)])
-    return g, opts
+    return sanitize(g), opts
 
 
 # ------------------------------------------------------------------------------------------
